@@ -379,52 +379,118 @@ func c02r5(c *Check) {
 	c.Judge(okLit && sent, "badmetrics.Add records (name, rejected text, reason, now)", c.AtFn(add), "Record{string(metric), string(msg), err.Error(), time.Now()} sent to the tracker", "the bad-metrics record is not built from the name, the rejected line and the reason (fields swapped or dropped)")
 	mg := c.P.Func("badmetrics", "*BadMetrics", "manage")
 	seenF := c.P.Field("badmetrics", "BadMetrics", "seen")
-	okStore := false
+	// the select state receiving from b.In, its received value and its case body
+	var sel *ssa.Select
+	selK := -1
+	allInstrs(mg, func(in ssa.Instruction) {
+		if x, ok := in.(*ssa.Select); ok {
+			for k, st := range x.States {
+				if st.Dir == types.RecvOnly && isFieldLoad(st.Chan, inF) {
+					sel, selK = x, k
+				}
+			}
+		}
+	})
+	if sel == nil {
+		anchorFail("badmetrics.manage: no select receiving from BadMetrics.In")
+	}
+	caseEntry := selectCases(sel)[selK]
+	isReceived := func(v ssa.Value) bool {
+		ex, ok := strip(v).(*ssa.Extract)
+		return ok && ex.Tuple == ssa.Value(sel)
+	}
+	good := map[*ssa.BasicBlock]bool{}
+	badStore := ""
 	allInstrs(mg, func(in ssa.Instruction) {
 		mu, ok := in.(*ssa.MapUpdate)
 		if !ok || !isFieldLoad(mu.Map, seenF) {
 			return
 		}
 		root, names := fieldPath(mu.Key)
-		if len(names) == 1 && names[0] == "Metric" {
-			// value is the same received record
-			vr, vn := fieldPath(mu.Value)
-			if len(vn) == 0 && (vr == root || strip(vr) == strip(root)) {
-				okStore = true
-			}
+		vr, vn := fieldPath(mu.Value)
+		if len(names) == 1 && names[0] == "Metric" && len(vn) == 0 && (vr == root || strip(vr) == strip(root)) && isReceived(vr) {
+			good[in.Block()] = true
+		} else if badStore == "" {
+			badStore = "at " + c.At(in) + " the tracker stores something other than the record just received under that record's name: the report no longer shows the last rejected line and reason for the name"
 		}
 	})
-	c.Judge(okStore, "badmetrics.manage keeps the last record per name", c.AtFn(mg), "seen[record.Metric] = record", "a reported record is not stored under its own metric name")
+	okStore := badStore == "" && len(good) > 0
+	if okStore && caseEntry != nil && !good[caseEntry] {
+		// every path through the case body stores the record before waiting again
+		r := reachable(caseEntry, nil, good)
+		if r[sel.Block()] {
+			okStore = false
+			badStore = "some path through the `<-b.In` case returns to the select without storing the received record: that rejection never becomes visible in the report"
+		}
+	}
+	if caseEntry == nil {
+		okStore, badStore = false, "case body of the receive from BadMetrics.In not found"
+	}
+	if badStore == "" {
+		badStore = "a reported record is not stored under its own metric name"
+	}
+	c.Judge(okStore, "badmetrics.manage keeps the last record per name", c.AtFn(mg), "seen[record.Metric] = record on every path of the receive case, and no other store into seen", badStore)
 	// expiry: delete only under LastSeen.Before(now - maxAge)
 	okExp := false
+	nDel := 0
 	maxAgeF := c.P.Field("badmetrics", "BadMetrics", "maxAge")
-	allInstrs(mg, func(in ssa.Instruction) {
-		cc, ok := isBuiltinCall(in, "delete")
-		if !ok || !isFieldLoad(cc.Args[0], seenF) {
-			return
-		}
-		for _, b := range mg.Blocks {
-			ifi, ok := b.Instrs[len(b.Instrs)-1].(*ssa.If)
+	// cutoff = time.Now().Add(-maxAge), possibly handed to a helper as a parameter
+	var isCutoff func(v ssa.Value, depth int) bool
+	isCutoff = func(v ssa.Value, depth int) bool {
+		if par, ok := v.(*ssa.Parameter); ok && depth < 3 {
+			args, ok := c.P.paramArgs(par)
 			if !ok {
-				continue
+				return false
 			}
-			call, ok := ifi.Cond.(*ssa.Call)
-			if !ok || calleeName(call.Common()) != "(time.Time).Before" {
-				continue
+			for _, a := range args {
+				if !isCutoff(a, depth+1) {
+					return false
+				}
 			}
-			// cutoff = time.Now().Add(-maxAge)
-			cut, ok := call.Call.Args[1].(*ssa.Call)
-			if !ok || calleeName(cut.Common()) != "(time.Time).Add" {
-				continue
-			}
-			neg, ok := cut.Call.Args[1].(*ssa.UnOp)
-			if !ok || neg.Op != token.SUB || !isFieldLoad(neg.X, maxAgeF) {
-				continue
-			}
-			if _, names := fieldPath(call.Call.Args[0]); len(names) > 0 && names[len(names)-1] == "LastSeen" && edgeDominates(b, b.Succs[0], in.Block()) {
-				okExp = true
-			}
+			return true
 		}
-	})
+		cut, ok := v.(*ssa.Call)
+		if !ok || calleeName(cut.Common()) != "(time.Time).Add" {
+			return false
+		}
+		if now, ok := cut.Call.Args[0].(*ssa.Call); !ok || calleeName(now.Common()) != "time.Now" {
+			return false
+		}
+		neg, ok := cut.Call.Args[1].(*ssa.UnOp)
+		return ok && neg.Op == token.SUB && isFieldLoad(neg.X, maxAgeF)
+	}
+	for _, g := range samePkgCallees(c.P, mg) {
+		g := g
+		allInstrs(g, func(in ssa.Instruction) {
+			cc, ok := isBuiltinCall(in, "delete")
+			if !ok || !isFieldLoad(cc.Args[0], seenF) {
+				return
+			}
+			nDel++
+			guarded := false
+			for _, b := range g.Blocks {
+				ifi, ok := b.Instrs[len(b.Instrs)-1].(*ssa.If)
+				if !ok {
+					continue
+				}
+				call, ok := ifi.Cond.(*ssa.Call)
+				if !ok || calleeName(call.Common()) != "(time.Time).Before" {
+					continue
+				}
+				if !isCutoff(call.Call.Args[1], 0) {
+					continue
+				}
+				if _, names := fieldPath(call.Call.Args[0]); len(names) > 0 && names[len(names)-1] == "LastSeen" && edgeDominates(b, b.Succs[0], in.Block()) {
+					guarded = true
+				}
+			}
+			if guarded {
+				okExp = true
+			} else {
+				nDel = -1000
+			}
+		})
+	}
+	okExp = okExp && nDel > 0
 	c.Judge(okExp, "badmetrics.manage expires a record only when it is older than maxAge", c.AtFn(mg), "delete under record.LastSeen.Before(now − maxAge)", "bad-metrics records are expired by a different rule than `older than maxAge`")
 }
